@@ -195,6 +195,8 @@ _add("C05", S+"Recover", ["delivery-record-reaches-back-the-retention", "not-rea
 for _f in ("(*cache.JSON).Persist", "(*cache.JSON).add", "(*cache.JSON).Reset", "(*cache.JSON).Done", "(*cache.JSON).Remove"):
     _add("C07", _f)
 _add("C17", "(*cache.JSON).Persist")
+_add("C17", B+"scan", ["nothing-queued-unless-the-cache-was-written", "remove-needs-done-and-policy", "scan-never-marks-done"])
+_add("C13", "(*http.Client).Transmit")
 _add("C17", "(*store.Local).ShouldIgnore")
 for _f in ("(*log.FileIO).Parse$1", "(*log.FileIO).Parse", "(*log.rollingFile).getCurrPath"):
     _add("C18", _f)
